@@ -390,6 +390,9 @@ class _SutReferenceNormalizer(cst.CSTTransformer):
         self._module_alias = module_alias
         self._bindings: dict[str, _SutBinding] = {}
         self._replacements: dict[int, cst.BaseExpression] = {}
+        # ``Name`` nodes that only spell a keyword-argument or member name and
+        # therefore never refer to an imported SUT member of the same name.
+        self._non_references: set[int] = set()
 
     def _resolve(self, chain: list[str]) -> list[str] | None:
         root, *rest = chain
@@ -462,6 +465,12 @@ class _SutReferenceNormalizer(cst.CSTTransformer):
     def visit_ImportFrom(self, node: cst.ImportFrom) -> bool:  # noqa: N802
         return False
 
+    def visit_Arg(self, node: cst.Arg) -> bool:  # noqa: N802
+        if node.keyword is not None:
+            # ``f(member=x)``: ``member`` is a parameter name.
+            self._non_references.add(id(node.keyword))
+        return True
+
     def visit_Attribute(self, node: cst.Attribute) -> bool:  # noqa: N802
         chain = _dotted_chain(node)
         if chain is not None:
@@ -469,6 +478,8 @@ class _SutReferenceNormalizer(cst.CSTTransformer):
             if replacement is not None:
                 self._replacements[id(node)] = _build_chain(replacement)
             return False
+        # ``f(x).member``: only the receiver expression can refer to the SUT.
+        self._non_references.add(id(node.attr))
         return True
 
     def leave_Attribute(  # noqa: N802
@@ -477,6 +488,8 @@ class _SutReferenceNormalizer(cst.CSTTransformer):
         return self._replacements.pop(id(original_node), updated_node)
 
     def visit_Name(self, node: cst.Name) -> bool:  # noqa: N802
+        if id(node) in self._non_references:
+            return True
         replacement = self._resolve([node.value])
         if replacement is not None:
             self._replacements[id(node)] = _build_chain(replacement)
